@@ -55,6 +55,17 @@ CLAIMED["C06"] = dict(
          "quick tier), concrete controller parameters, and sound UF abstractions of x**c, products and quotients of symbolic "
          "terms. Trusted base: CPython+JAX tracing, jxs interpreter, z3.")
 
+CLAIMED["C05"] = dict(
+    text="Two bounded symbolic checks of the real code. (P) ProbabilisticSolver.interpolate_fwd / interpolate_fwd_at_t1 with "
+         "the three strategies, from two ARBITRARY solver states and symbolic t0<t<t1, equals exact Gaussian conditioning "
+         "(prediction from the preceding state; for smoothers the backward kernels in joint-law form, their composition, "
+         "and the identity restart), decided by z3 QF_LRA on linearised polynomial obligations for all three "
+         "factorisations. (S) The real adaptive driver with a scripted solver: with and without an extra checkpoint the "
+         "k-th executed attempt is identical for every error profile, and consecutive interpolations inside one step are "
+         "chained through the states returned by the previous interpolation (z3 over the unrolled driver).",
+    technique="jaxpr symbolic execution; z3 QF_LRA (XL certificates) for the Gaussian algebra, z3 QF_UFLRA over the unrolled driver for the control part; replay on the real code",
+    design="§4 C05")
+
 DIRECT_NOTE = ("Assumes real arithmetic and polynomial inputs with symbolic coefficients up to the stated degree/size. "
                "Trusted base: CPython+JAX tracing (jet/jvp/vmap are JAX's own), the jxs interpreter and polynomial "
                "arithmetic (re-validated every run against the real JAX runtime), z3.")
